@@ -167,3 +167,24 @@ Definition py_slice (s : pystr) (lo hi : option Z) : pystr :=
   let a := slice_bound len lo 0 in
   let b := slice_bound len hi len in
   firstn (Z.to_nat (b - a)) (skipn (Z.to_nat a) s).
+
+(* ---- objects with state, as the method translator sees them ------------------------- *)
+Inductive pyjobtype := JT_CYCLIC | JT_MINUTELY | JT_HOURLY | JT_DAILY | JT_WEEKLY.
+Definition pyjobtype_eqb (a b : pyjobtype) : bool :=
+  match a, b with
+  | JT_CYCLIC, JT_CYCLIC | JT_MINUTELY, JT_MINUTELY | JT_HOURLY, JT_HOURLY | JT_DAILY, JT_DAILY
+  | JT_WEEKLY, JT_WEEKLY => true
+  | _, _ => false
+  end.
+(* TimingJobTimerUnion; typing.cast() does nothing at run time, a wrong variant fails on first use *)
+Inductive pytiming := PTdelta (d : timedelta) | PTtime (t : time) | PTweekday (w : weekday).
+Definition as_timedelta (x : pytiming) : res timedelta := match x with PTdelta d => Ok d | _ => Err TypeError end.
+Definition as_time (x : pytiming) : res time := match x with PTtime t => Ok t | _ => Err AttributeError end.
+Definition as_weekday (x : pytiming) : res weekday := match x with PTweekday w => Ok w | _ => Err AttributeError end.
+(* JobTimer *)
+Record pytimer := mkPyTimer { pt_type : pyjobtype; pt_timing : pytiming; pt_next : datetime; pt_skip : bool }.
+Definition set_pt_next (s : pytimer) (d : datetime) : pytimer := mkPyTimer (pt_type s) (pt_timing s) d (pt_skip s).
+Definition set_pt_timing (s : pytimer) (t : pytiming) : pytimer := mkPyTimer (pt_type s) t (pt_next s) (pt_skip s).
+Definition opt_is_some {A} (o : option A) : bool := match o with Some _ => true | None => false end.
+(* the attempt-related part of BaseJob *)
+Record pyjobstate := mkPyJobState { pj_mark_delete : bool; pj_max_attempts : Z; pj_attempts : Z }.
